@@ -308,6 +308,75 @@ def run(chk):
         if worst > 1e3 * eps:
             chk.fail("chain-not-exact", f"{'commuting-gate chain' if commuting else 'two-site chain'}: deviation {worst:.2e} from the exact propagator / partial traces", info)
 
+    # ---- (c2) sites of DIFFERENT Hilbert-space dimensions; a read-only query between two compute calls -----------------
+    def herm(dd):
+        a_ = np.array([[rng.gauss(0, 1) + 1j * rng.gauss(0, 1) for _ in range(dd)] for _ in range(dd)])
+        return (a_ + a_.conj().T) / 2
+
+    def ptrace_d(rho_, keep, dims):
+        nd = len(dims)
+        t_ = rho_.reshape(list(dims) + list(dims))
+        cur = list(range(nd))
+        for q in sorted(set(range(nd)) - set(keep), reverse=True):
+            pos = cur.index(q)
+            t_ = np.trace(t_, axis1=pos, axis2=pos + len(cur))
+            cur.pop(pos)
+        dk_ = int(np.prod([dims[q] for q in keep]))
+        return t_.reshape(dk_, dk_)
+    for it in range(4 if thorough else 2):
+        dims = [[2, 3], [3, 2], [3, 2], [2, 4]][it]
+        order = rng.choice([1, 2])
+        dt, N = 0.1, 3
+        hs = [herm(dd) for dd in dims]
+        A_, B_ = herm(dims[0]), herm(dims[1])
+        Lop = np.diag(np.sqrt(np.arange(1, dims[1])), 1).astype(complex)        # lowering operator on the second site
+        g_ = rng.choice([0.3, 1.4])
+        chain = oqupy.SystemChain(dims)
+        for i in range(2):
+            chain.add_site_hamiltonian(i, hs[i])
+        chain.add_nn_hamiltonian(0, A_, B_)
+        chain.add_site_dissipation(1, Lop, g_)
+        r0s = []
+        for dd in dims:
+            b_ = np.array([[rng.gauss(0, 1) + 1j * rng.gauss(0, 1) for _ in range(dd)] for _ in range(dd)])
+            r_ = b_ @ b_.conj().T
+            r0s.append(r_ / np.trace(r_))
+        peek = it % 2 == 0
+        info = {"kind": "mixed-dimensions", "dims": dims, "order": order, "query_between_computes": peek}
+        chk.search_cases += 1
+        chk.count("mixed_dimension_chains")
+        chk.case(info, ("mixed", tuple(dims), order, peek))
+        try:
+            p = oqupy.PtTebd(oqupy.AugmentedMPS(r0s), chain, [None, None], oqupy.PtTebdParameters(dt=dt, order=order, epsrel=eps), dynamics_sites=[0, 1, (0, 1)])
+            if peek:
+                quiet(p.compute, 1, progress_type="silent")
+                mid = np.array(p.get_current_density_matrix(0))
+                res = quiet(p.compute, N, progress_type="silent")
+            else:
+                res = quiet(p.compute, N, progress_type="silent")
+        except Exception as ex:
+            chk.fail("chain-raises", f"PtTebd on a chain of dimensions {dims} raises {ex!r}", info)
+            continue
+        DD = dims[0] * dims[1]
+        Hf = np.kron(hs[0], np.eye(dims[1])) + np.kron(np.eye(dims[0]), hs[1]) + np.kron(A_, B_)
+        C_ = np.kron(np.eye(dims[0]), Lop)
+        CdC = C_.conj().T @ C_
+        Lf = -1j * (np.kron(Hf, np.eye(DD)) - np.kron(np.eye(DD), Hf.T)) + g_ * (np.kron(C_, C_.conj()) - 0.5 * np.kron(CdC, np.eye(DD)) - 0.5 * np.kron(np.eye(DD), CdC.T))
+        P = expm(Lf * dt)
+        rho = np.kron(r0s[0], r0s[1])
+        worst = 0.0
+        for k in range(N + 1):
+            worst = max(worst, np.abs(np.array(res["dynamics"][(0, 1)].states[k]) - rho).max(),
+                        np.abs(np.array(res["dynamics"][0].states[k]) - ptrace_d(rho, [0], dims)).max(),
+                        np.abs(np.array(res["dynamics"][1].states[k]) - ptrace_d(rho, [1], dims)).max())
+            if peek and k == 1:
+                worst = max(worst, np.abs(mid - ptrace_d(rho, [0], dims)).max())
+            rho = (P @ rho.reshape(-1)).reshape(DD, DD)
+        worst = max(worst, np.abs(np.array(res["norm"]) - 1).max())
+        if worst > 1e3 * eps:
+            chk.fail("chain-not-exact", f"two-site chain of dimensions {dims}{' with a density-matrix query between two compute calls' if peek else ''}: "
+                     f"deviation {worst:.2e} from the exact propagator / partial traces / norm one", info)
+
     # ---- (d) execution modes, each in a fresh interpreter --------------------------------------
     base, err = run_mode("none")
     if base is None:
